@@ -25,7 +25,10 @@ type Op struct {
 	StopAt int  // >0: callback asks to stop after this many rows (where the API allows)
 	Lock   bool // low level ops: take RLock/RUnlock around
 	Scan   bool // additionally run Row.Scan/ScanStrings on every delivered row
+	MaxRows int // >0: abort the operation (harness-side unwinding) once this many rows were delivered
 }
+
+type rowCap struct{}
 
 func (o Op) String() string {
 	s := o.Kind
@@ -89,6 +92,7 @@ type Result struct {
 	Calls     int  // callback invocations
 	CallAfterStop int
 	NilRow    bool // rowid lookups: not found
+	RowCap    bool // MaxRows reached; the operation was unwound by the harness
 }
 
 // Hook is called at the start of every callback invocation (i = 0-based row
@@ -116,6 +120,10 @@ func cprow(r []interface{}) []sq.Val {
 func Run(d *sqlittle.DB, op Op, hook Hook) (res Result) {
 	defer func() {
 		if r := recover(); r != nil {
+			if _, ok := r.(rowCap); ok {
+				res.RowCap = true
+				return
+			}
 			res.Panic = r
 			res.Stack = string(debug.Stack())
 		}
@@ -130,6 +138,9 @@ func Run(d *sqlittle.DB, op Op, hook Hook) (res Result) {
 			hook(res.Calls)
 		}
 		res.Calls++
+		if op.MaxRows > 0 && res.Calls > op.MaxRows {
+			panic(rowCap{})
+		}
 		res.Rows = append(res.Rows, cprow(row))
 		if op.Scan {
 			scanAll(row)
